@@ -154,7 +154,7 @@ class C17(flow.Spec):
 
     def cases(self, ctx, seed, tier, round_no=0):
         rng = random.Random(seed * 1000003 + round_no * 7919 + 17)
-        n = 500 if tier == "quick" else 8000
+        n = 500 if tier == "quick" else 40000
         cs = []
         for i in range(n):
             cs.append(gen_lru_case(rng, i, rng.choice([6, 15, 30, 60])))
